@@ -169,8 +169,18 @@ func H08_dict() {
 	}
 	si := vChoice("start", len(bounds))
 	ei := vChoice("end", len(bounds))
-	// an empty exclusive end key is indistinguishable from an absent one for the FST library: not a well-formed range
-	vAssume(ei != 1)
+	// an empty (non-nil) exclusive end key selects nothing. It is only asked with the start absent and when the
+	// empty term itself is not in the dictionary (with the empty term present the FST library returns it - an
+	// exact hit on the start position is not checked against the exclusive end; recorded as a validity predicate)
+	if ei == 1 {
+		emptyPresent := false
+		for ti, t := range vDictAlphabet {
+			if t == "" && card[ti] != 0 {
+				emptyPresent = true
+			}
+		}
+		vAssume(si == 0 && !emptyPresent)
+	}
 	var start, end []byte
 	if si > 0 {
 		start = []byte(bounds[si])
